@@ -364,7 +364,7 @@ public:
 	void VisitKeys(TCallback&& fn)
 	{
 		for (const auto& keyVal : this->mNode->GetObject()) {
-			fn(keyVal.name.GetString());
+			fn(key_type(keyVal.name.GetString(), keyVal.name.GetStringLength()));
 		}
 	}
 
@@ -451,7 +451,7 @@ public:
 
 protected:
 	[[nodiscard]] typename RapidJsonNode::MemberIterator FindMember(const key_type& key) const {
-		return this->mNode->GetObject().FindMember(key.c_str());
+		return this->mNode->GetObject().FindMember(RapidJsonNode(rapidjson::StringRef(key.data(), static_cast<rapidjson::SizeType>(key.size()))));
 	}
 
 	[[nodiscard]] typename RapidJsonNode::MemberIterator FindMember(key_raw_ptr key) const {
@@ -461,7 +461,7 @@ protected:
 	[[nodiscard]] RapidJsonNode* LoadJsonValue(const key_type& key) const
 	{
 		const auto jObject = this->mNode->GetObject();
-		auto it = jObject.FindMember(key.c_str());
+		auto it = jObject.FindMember(RapidJsonNode(rapidjson::StringRef(key.data(), static_cast<rapidjson::SizeType>(key.size()))));
 		return it == jObject.MemberEnd() ? nullptr : &it->value;
 	}
 
@@ -475,7 +475,7 @@ protected:
 	bool SaveJsonValue(const key_type& key, RapidJsonNode&& jsonValue) const
 	{
 		// Checks that object was not saved previously under the same key
-		assert(this->mNode->GetObject().FindMember(key.c_str()) == this->mNode->GetObject().MemberEnd());
+		assert(FindMember(key) == this->mNode->GetObject().MemberEnd());
 
 		auto jsonKey = RapidJsonNode(key.data(), static_cast<rapidjson::SizeType>(key.size()), mAllocator);
 		this->mNode->AddMember(std::move(jsonKey), std::move(jsonValue), mAllocator);
